@@ -37,6 +37,14 @@ pub fn parse_styles(opt: &cli::Opt) -> HashMap<String, Style> {
         .get_mut("plus-emph-style")
         .unwrap_or_else(|| panic!("plus-emph-style not found in resolved styles"))
         .is_emph = true;
+
+    if opt.color_only {
+        // --color-only output must correspond to the input line for line: a decoration asked for
+        // inside a style string ("blue box") is dropped, like the *-decoration-style options are.
+        for style in resolved_styles.values_mut() {
+            style.decoration_style = style::DecorationStyle::NoDecoration;
+        }
+    }
     resolved_styles
 }
 
